@@ -895,3 +895,11 @@ func Touch(o *Obj, write bool, val uint64) {
 	}
 	s.commit(s.cur, KLog, o, write, val)
 }
+
+// Infra reports a situation the harness machinery cannot handle (not a property
+// violation): the process exits with status 2, which the driver reports as an
+// infrastructure error and never as a VIOLATION.
+func Infra(msg string) {
+	fmt.Fprintln(os.Stderr, "vrt: infrastructure error:", msg)
+	os.Exit(2)
+}
